@@ -16,6 +16,7 @@ ASSUMPTIONS = ["tolerance 1 ulp of max|bound| for policy-driven actions, 0 for s
 TIERS = {"quick": {"runs": 64}, "thorough": {"runs": 1500}}
 REQUIRED = ["actions_in_bounds", "action_on_bound", "target_actions_in_bounds", "smoothing_within_noise_clip", "planner_candidates_in_bounds", "noise0_action_equals_policy"]
 REQUIRED_QUICK = ["actions_in_bounds", "target_actions_in_bounds", "planner_candidates_in_bounds"]
+CHUNK = 24  # TrainSim plans per fresh worker process
 SHRINK_LISTS = [["env", "script"]]
 SHRINK_INTS = []
 CLAUSES = ["C10.a", "C10.b", "C10.c", "C10.d", "C10.e", "C01.d"]
